@@ -1,30 +1,119 @@
-"""C04 — pass-through. (first instalment: tabs primitive correspondence)"""
+"""C04 — text that is not diff/blame/grep output passes through byte for byte."""
+from .. import machine as M
 from ..core import hx, unhx
 
-DRIVERS = ["drv_text"]
+DRIVERS = ["drv_machine", "drv_text"]
+GENERATED = ["Handlers", "Markers"]
 
-def gen_line(rng):
-    alphabet = ["a", "b", " ", "\t", "é", "日", "+", "-", "\x1b[31m", "\x1b[m", "x"]
-    return "".join(rng.choice(alphabet) for _ in range(rng.randint(0, 12)))
+WORDS = ["On", "branch", "main", "Your", "is", "up", "to", "date", "with", "origin/main.", "nothing", "commit,", "working",
+         "tree", "clean", "Merge:", "Author:", "Date:", "Signed-off-by:", "日本語", "ünï", "émoji😀", "x=1;", "a\tb", "\ttabbed",
+         "  indented", "--", "-", "+", "++", "@", "#", "/* c */", "100%", "|", "||", "1 file changed,", "insertion(+)",
+         "\x1b[31mred\x1b[m", "\x1b[1;32mbold-green\x1b[0m", "\x1b[38;5;208mpal\x1b[39m", "\x1b[38;2;1;2;3mrgb\x1b[0m", "\x1b[7m", "\x1b[m"]
+
+OPENER_PREFIXES = ["commit ", "diff ", "--- ", "+++ ", "@@", "rename from ", "rename to ", "copy from ", "copy to ", "old mode ",
+                   "new mode ", "deleted file mode ", "new file mode ", "Binary files ", "Only in ", "Submodule ", "{"]
+
+
+def gen_text_line(rng):
+    n = rng.randint(0, 8)
+    s = " ".join(rng.choice(WORDS) for _ in range(n))
+    if rng.random() < 0.15:
+        s = "    " + s          # commit message body
+    if rng.random() < 0.05:
+        s = s + "\r"
+    while any(M.strip_ansi(s.encode()).decode("utf-8", "replace").startswith(p) for p in OPENER_PREFIXES):
+        s = "." + s
+    return s
+
 
 def run(ctx, rep):
-    rep.rule = "random short lines over an alphabet with tabs, wide chars and SGR; non-trivial = contains a TAB; distinct by (width,line)"
-    reqs, cases = [], []
-    for _ in range(ctx.n(300, 5000)):
-        w, s = ctx.rng.randint(0, 8), gen_line(ctx.rng)
-        reqs.append(f"text.expand {w} {hx(s)}")
-        cases.append((w, s))
+    rep.rule = ("text streams free of construct-opening markers (words incl. tabs, Unicode, SGR colour sequences, CR), alone and "
+                "before / between / after git diff sections, x random configurations; non-trivial = >= 3 text lines of which one "
+                "carries an escape sequence or a tab; distinct by (config, input)")
+    rng = ctx.rng
+    # 1. the tab primitive (model: Text.expand)
+    reqs, tcases = [], []
+    for _ in range(ctx.n(200, 3000)):
+        w, s = rng.randint(0, 8), gen_text_line(rng)
+        reqs.append(f"text.expand {w} {hx(s)}"); tcases.append((w, s))
     impl = ctx.hook().ask(reqs)
     mdl = ctx.model("drv_text")
     model = mdl.ask(reqs) if (mdl and ctx.drivers_ok) else [None] * len(reqs)
-    for (w, s), i, m in zip(cases, impl, model):
-        rep.case(key=(w, s), nontrivial="\t" in s, sample=dict(op="text.expand", width=w, line=s, impl=i))
+    for (w, s), i, m in zip(tcases, impl, model):
         if m is not None:
             rep.corr_case("text.expand", i == m, dict(width=w, line=s, impl=i, model=m))
-        # direct oracle: a line without TAB (or width 0) is unchanged
         if i.startswith("ok ") and (w == 0 or "\t" not in s) and unhx(i[3:]) != s.encode():
-            rep.violation("expand-changes-tabless-line", "tab expansion altered a line without tabs",
-                          dict(op="text.expand", width=w, line=s, got=i))
+            rep.violation("expand-changes-tabless-line", "tab expansion altered a line without tabs", dict(op="text.expand", width=w, line=s, got=i))
+    # 2. streams through the state machine
+    cases, meta = [], []
+    for _ in range(ctx.n(250, 5000)):
+        cfg = M.gen_cfg(rng)
+        shape = rng.choice(["alone", "before", "around", "after-hunks", "after-hunkless", "log"])
+        text = lambda k: [gen_text_line(rng) for _ in range(rng.randint(1, k))]
+        lines, expect = [], []   # expect[i] = True if line i must pass through unchanged
+        def add_text(ls, must=True):
+            for l in ls:
+                if must == "after-hunk" and M.strip_ansi(l.encode("utf-8", "surrogateescape"))[:1] in (b" ", b"+", b"-"):
+                    l = "." + l      # otherwise it simply is another line of the hunk
+                lines.append(l); expect.append(must)
+        def add_diff(ls):
+            for l in ls:
+                lines.append(l); expect.append(False)
+        if shape == "alone":
+            add_text(text(12))
+        elif shape == "before":
+            add_text(text(6)); add_diff(M.gen_git_diff(rng, with_commit=False)[0])
+        elif shape == "around":
+            add_text(text(4)); add_diff(M.gen_file(rng, kind="modified")["lines"]); add_text(text(4), must="after-hunk")
+        elif shape == "after-hunks":
+            add_diff(M.gen_file(rng, kind=rng.choice(["modified", "added", "deleted"]))["lines"]); add_text(text(5), must="after-hunk")
+        elif shape == "after-hunkless":
+            add_diff(M.gen_file(rng, kind=rng.choice(["renamed", "copied", "mode_only", "binary", "empty_added"]))["lines"])
+            add_text(text(5), must="after-hunkless")
+        else:
+            for _ in range(rng.randint(1, 3)):
+                add_diff(M.gen_commit(rng)[:1]); add_text(["Author: A <a@b.c>", "Date:   Mon Jan 1 2024", ""]); add_text(["    " + gen_text_line(rng)]); add_text([""])
+                add_diff(M.gen_file(rng, kind="modified")["lines"])
+        cases.append((cfg, [l.encode("utf-8", "surrogateescape") for l in lines]))
+        meta.append((cfg, lines, expect, shape))
+    res = M.observe(ctx, cases)
+    for (cfg, lines, expect, shape), (impl, model) in zip(meta, res):
+        case = dict(args=cfg.args(), model_cfg=cfg.d, input="\n".join(lines), shape=shape)
+        ntext = sum(1 for e in expect if e)
+        rep.case(key=(cfg.key(), tuple(lines)), nontrivial=ntext >= 3 and any(("\x1b" in l or "\t" in l) for l, e in zip(lines, expect) if e),
+                 sample=dict(shape=shape, n_lines=len(lines), head=lines[:4]))
+        rep.count("shape:" + shape)
+        if impl.panic:
+            rep.violation("panic:" + impl.msg[:60], impl.msg[:200], case); continue
+        if not impl.ok:
+            continue
+        dis = M.compare(cfg, impl, model)
+        rep.corr_case("machine.run", not dis, dict(case, disagreement=dis[:2]))
+        # direct oracle: the bytes written while line k was consumed are exactly the line (+ newline), for every text line
+        prev = 0
+        for k, (o, must) in enumerate(zip(impl.obs[:-1], expect)):
+            chunk = impl.out[prev:o["written"]]
+            prev = o["written"]
+            if not must:
+                continue
+            want = lines[k].encode("utf-8", "surrogateescape")
+            if want.endswith(b"\r"):
+                want = want[:-1]                      # permitted: CRLF normalisation
+            # what was written for this line = the tail of the chunk (buffered rows of earlier lines may precede it)
+            if chunk.endswith(want + b"\n") and (len(chunk) == len(want) + 1 or chunk[-len(want) - 2:-len(want) - 1] == b"\n"):
+                continue
+            if must == "after-hunk":
+                sig = "text-after-hunk-tabs-expanded" if b"\t" in want else "text-after-hunk-altered"
+            elif must == "after-hunkless":
+                sig = "text-after-hunkless-section-swallowed"
+            else:
+                sig = "passthrough-altered:" + shape
+            rep.violation(sig, f"line {k} {lines[k]!r} was not passed through unchanged (written: {chunk[-120:]!r})", dict(case, line=k))
+
 
 def replay(ctx, rep, obj):
-    run(ctx, rep)
+    c = obj["case"]
+    cfg = M.VCfg(**c["model_cfg"])
+    lines = c["input"].split("\n")
+    impl, model = M.observe(ctx, [(cfg, [l.encode("utf-8", "surrogateescape") for l in lines])])[0]
+    print(impl.out.decode("utf-8", "replace"))
